@@ -134,3 +134,45 @@ func TestVerif_C37_Keys(t *testing.T) {
 		}
 	}
 }
+
+// TestVerif_C37_Kinds replays sequences of (kind, value) events on ONE
+// deduplicator built by the production constructor; the same 256-bit value is
+// used as DKG seed, wallet ID and result seed/hash, so the textual cache keys
+// of different kinds coincide and only separate caches keep them apart.
+func TestVerif_C37_Kinds(t *testing.T) {
+	kit.RequireEngine(t)
+	rep := kit.NewReport("C37", "tbtc_kinds")
+	defer rep.Write(t)
+	value := func(v string) [32]byte {
+		var b [32]byte
+		for i := range b {
+			b[i] = byte(0xa0 + c37Num(v)) // top nibble set: 64 hex digits, no leading zero
+		}
+		return b
+	}
+	for _, c := range kit.LoadCases(t, "kinds.ndjson") {
+		d := newDeduplicator()
+		var got, exp []bool
+		for _, s := range c.Get("steps").List() {
+			b := value(s.Get("v").Str())
+			var r bool
+			switch s.Get("kind").Str() {
+			case "started":
+				r = d.notifyDKGStarted(new(big.Int).SetBytes(b[:]))
+			case "closed":
+				r = d.notifyWalletClosed(b)
+			case "result":
+				r = d.notifyDKGResultSubmitted(new(big.Int).SetBytes(b[:]), DKGChainResultHash(b), 7)
+			}
+			got = append(got, r)
+			exp = append(exp, s.Get("ret").Str() == "true")
+		}
+		rep.Eval(kit.Hash(c.X), c.X)
+		for i := range got {
+			if got[i] != exp[i] {
+				rep.Diverge("dedup-crosskind", "events of different kinds (or a repeated event) are confused on one deduplicator instance: delivery "+strconv.Itoa(i+1)+" returned "+strconv.FormatBool(got[i]), c.X, exp, got)
+				break
+			}
+		}
+	}
+}
